@@ -110,7 +110,9 @@ PathFail(x) ==
 IsChi(c) == c.angle = "chiR" \/ c.angle = "chiY"
 
 TorVerdict(c) ==
-  IF c.angle \notin TorsionNames THEN <<"fail", "InputAngleName", "harness">>
+  \* the torsion table must have exactly one row per residue of the library's own connected segments
+  IF c.angle = "rows" THEN <<"fail", "TableRowPerResidue", "tertiary_v2">>
+  ELSE IF c.angle \notin TorsionNames THEN <<"fail", "InputAngleName", "harness">>
   ELSE IF c.atoms # TorsionDef[c.angle] THEN <<"fail", "AtomsPerIUPAC", "harness">>
   ELSE IF PathFail(c.t1) = "RefDefined" \/ PathFail(c.v2) = "RefDefined" THEN <<"fail", "RefDefined", "harness">>
   \* a residue lacking one of the four glycosidic atoms has no chi: a number there is not the glycosidic torsion
@@ -118,6 +120,8 @@ TorVerdict(c) ==
        THEN <<"fail", "ChiOnlyFromGlycosidicAtoms", "tertiary">>
   ELSE IF IsChi(c) /\ ~c.v2.present /\ c.v2.asked /\ ~c.v2.undef
        THEN <<"fail", "ChiOnlyFromGlycosidicAtoms", "tertiary_v2">>
+  \* every one of the four atoms occurs once in the first model: both code paths have no choice of coordinates
+  ELSE IF c.single /\ c.t1.present /\ c.v2.present /\ c.t1.xyz # c.v2.xyz THEN <<"fail", "SameAtomsBothPaths", "tertiary_v2">>
   ELSE IF PathFail(c.t1) # "ok" THEN <<"fail", PathFail(c.t1), "tertiary">>
   \* A-form chi (about -160 degrees) must be classified anti
   ELSE IF c.t1.present /\ IsChi(c) /\ AFormChi(c.t1.ref.v) /\ c.cls # "anti" THEN <<"fail", "AFormChiAnti", "chi_class">>
@@ -152,12 +156,39 @@ AformVerdict(c) ==
   ELSE IF AFormTableNeg(c.rows2) THEN <<"deviation", "V2TorsionSignFlipped", "AFormChiAnti">>
   ELSE <<"fail", "AFormChiAnti", "tertiary_v2">>
 
+\* ------------------------------------------------------------------ kind "stem"
+\* The inter-stem torsion of Mapping2D3D.calculate_inter_stem_parameters (a user of the torsion function):
+\* c.dist = the four endpoint distances (milli-A), c.ref[t] = the measurer's dihedral over the four base-pair
+\* centroids documented for endpoint type t, c.fwd / c.rev = what the library reports for (stem i, stem j) and
+\* for (stem j, stem i).  The reported type is a closest endpoint pair, the reported angle is the IUPAC
+\* dihedral of that type's four points, and - reversing the four points keeps a dihedral - swapping the two
+\* stems swaps 5' and 3' in the type and keeps the angle.
+StemTypes == {"cs55", "cs53", "cs35", "cs33"}
+SwapType(t) == CASE t = "cs53" -> "cs35" [] t = "cs35" -> "cs53" [] OTHER -> t
+MinDist(c) == LET D == { c.dist[t] : t \in StemTypes } IN CHOOSE d \in D : \A e \in D : d <= e
+StemSide(c, x, who) ==
+  IF x.err # "" THEN <<"fail", "StemTorsionDefined", who>>
+  ELSE IF x.type \notin StemTypes THEN <<"fail", "StemTypeKnown", who>>
+  ELSE <<"ok">>
+StemVerdict(c) ==
+  IF \E t \in StemTypes : ~Defined(c.ref[t]) THEN <<"ok">>                   \* degenerate centroids: not judged
+  ELSE IF StemSide(c, c.fwd, "forward")[1] # "ok" THEN StemSide(c, c.fwd, "forward")
+  ELSE IF StemSide(c, c.rev, "swapped")[1] # "ok" THEN StemSide(c, c.rev, "swapped")
+  ELSE IF c.dist[c.fwd.type] > MinDist(c) + 1 THEN <<"fail", "StemClosestEndpoints", "forward">>
+  ELSE IF c.dist[SwapType(c.rev.type)] > MinDist(c) + 1 THEN <<"fail", "StemClosestEndpoints", "swapped">>
+  ELSE IF ~Defined(c.fwd.res) \/ ~InRangeU(c.fwd.res.v) THEN <<"fail", "InRange", "inter-stem">>
+  ELSE IF Dist(c.fwd.res.v, c.ref[c.fwd.type].v) > TolPhi THEN <<"fail", "InterStemTorsion", "forward">>
+  ELSE IF ~Defined(c.rev.res) \/ Dist(c.rev.res.v, c.ref[SwapType(c.rev.type)].v) > TolPhi
+       THEN <<"fail", "InterStemTorsion", "swapped (reversal keeps the value)">>
+  ELSE <<"ok">>
+
 \* ------------------------------------------------------------------ dispatch
 Verdict(c) ==
   IF c.kind = "lat" THEN LatVerdict(c)
   ELSE IF c.kind = "phi" THEN PhiVerdict(c)
   ELSE IF c.kind = "tor" THEN TorVerdict(c)
   ELSE IF c.kind = "aform" THEN AformVerdict(c)
+  ELSE IF c.kind = "stem" THEN StemVerdict(c)
   ELSE <<"fail", "UnknownKind", "harness">>
 
 \* cases in which the required angle is not a fixed point of negation (sign-sensitive)
